@@ -11,6 +11,7 @@ import (
 	"go/types"
 	"os"
 	"path/filepath"
+	"runtime/debug"
 	"sort"
 	"strings"
 
@@ -275,6 +276,9 @@ func Load(opts Options) (*Program, error) {
 			defer func() {
 				if x := recover(); x != nil {
 					err = fmt.Errorf("panic: %v", x)
+					if os.Getenv("VERIF_DEBUG_NORMAL") != "" {
+						fmt.Fprintf(os.Stderr, "%s\n", debug.Stack())
+					}
 				}
 			}()
 			np, ni, rep, err = normal.Normalize(root.Fset, root.Syntax, root.Types, root.TypesInfo, normal.Known(), check)
